@@ -462,7 +462,6 @@ func hasField(t types.Type, name string) bool {
 	return false
 }
 
-
 // c01BatchDedupIndex (R7, added after a seeded change was missed): when entity representations are de-duplicated,
 // the table hash → index must hold the index of the representation's bucket in batchStats, i.e. the counter that is
 // incremented together with the append of a new bucket — in both sibling implementations (batch entity fetch and
